@@ -255,8 +255,8 @@ def initSt (h : Hdr) : St :=
   { bs := h.bs0, shift := 0, chan := 0, out := [],
     chans := List.replicate h.nchan ⟨List.replicate (h.bs0 + h.nwrap) 0, List.replicate h.nblock h.meanInit⟩ }
 
-/-- everything after the version byte -/
-def mainProg (version : Nat) (convert : Bool) (fuel : Nat) : Prog (List Int) := do
+/-- the stream header: `ftype`, `nchan`, `blocksize`, `maxnlpc`, `nmean`, `nskip` and the skipped bytes -/
+def readHdr (version : Nat) : Prog Hdr := do
   let ftype ← ulong
   if ftype ≥ FTYPE_LIMIT then failWith (.io .badType)
   else do
@@ -267,9 +267,12 @@ def mainProg (version : Nat) (convert : Bool) (fuel : Nat) : Prog (List Int) := 
     let nskip ← ulong
     skipBytes nskip
     if nchan = 0 ∨ blocksize = 0 then failWith (.unsupported "no channels or empty blocks")
-    else
-      let h : Hdr := ⟨version, ftype, nchan, blocksize, maxnlpc, nmean⟩
-      loop h convert fuel (initSt h)
+    else pure ⟨version, ftype, nchan, blocksize, maxnlpc, nmean⟩
+
+/-- everything after the version byte -/
+def mainProg (version : Nat) (convert : Bool) (fuel : Nat) : Prog (List Int) := do
+  let h ← readHdr version
+  loop h convert fuel (initSt h)
 
 /-- `version == 1` or `MIN_SUPPORTED_VERSION <= version <= MAX_SUPPORTED_VERSION`, else `raise error`
     (`version` is the signed byte after the magic) -/
